@@ -9,6 +9,8 @@ CONSTANTS
   HalfMax = 1
   Callers = {"c1", "c2"}
   Outcomes = {"ok", "fail", "cancel"}
+  SplitAcquire = FALSE
+  Defects = {}
   MaxNow = 7
   MaxCount = 3
 CONSTRAINT Bound
